@@ -60,9 +60,16 @@ class Unit:
         out = []
         for ln in open(path, encoding='utf-8').read().split('\n'):
             if ln.strip().startswith('//@include '):
-                p = os.path.join(os.path.dirname(path), ln.strip()[len('//@include '):].strip())
-                out.append('// ---- include %s' % os.path.basename(p))
-                out.extend(self._load(p))
+                words = ln.strip()[len('//@include '):].split()
+                p = os.path.join(os.path.dirname(path), words[0])
+                force = [w for w in words[1:] if w.startswith('mode=')]
+                out.append('// ---- include %s %s' % (os.path.basename(p), ' '.join(words[1:])))
+                for l2 in self._load(p):
+                    # `//@include f mode=external_body`: the same contracts are assumed here
+                    # (bodies ignored); they are proved in the unit that includes f plainly.
+                    if force and l2.strip().startswith('//@fn ') and 'mode=' not in l2:
+                        l2 = l2.rstrip() + ' ' + force[0] + ' assumed_from=' + os.path.basename(p)
+                    out.append(l2)
             else:
                 out.append(ln)
         return out
@@ -275,6 +282,7 @@ class Unit:
             safety=[p for p in kv.get('safety', '').split(',') if p],
             mode=mode, out_start=out_start, out_end=out_end,
             loops=len(loops), spec_lines=len([l for l in sig_spec if l.strip()]),
+            assumed_from=kv.get('assumed_from', ''),
         ))
 
     def _find_arrow(self, src, sig_start, bopen):
